@@ -276,3 +276,50 @@ func earlyErrorDocs() (single [][]byte, nd [][]byte) {
 	}
 	return
 }
+
+// longStringDocs: documents in which strings and keys are already stored when a
+// much longer string arrives (so that the unescaped-string buffer has to grow
+// by more than doubling), in copy mode and — through an escape — in no-copy
+// mode; the long string first, in the middle and last.
+func longStringDocs(r *Rng) [][]byte {
+	var out [][]byte
+	for _, L := range []int{60, 100, 130, 200, 257, 300, 513, 1000, 2500, 9000} {
+		for _, esc := range []string{"", `\n`, `é`} {
+			long := strings.Repeat("abcdefghij", L/10+1)[:L] + esc
+			pre := `"id":"x` + esc + `y","kind":"` + strPool[r.Intn(8)] + `",`
+			out = append(out, []byte(`{`+pre+`"payload":"`+long+`","ok":true}`))
+			out = append(out, []byte(`{`+pre+`"payload":"`+long+`","after":"z","n":[1,"two"]}`))
+			out = append(out, []byte(`["a`+esc+`","bb",["`+long+`"],"tail"]`))
+			out = append(out, []byte(`{"`+long+`":"v","k":"`+long+long+`"}`))
+		}
+	}
+	return out
+}
+
+// truncatedObjects: big objects of string / number members cut at every
+// alignment inside a member (after the colon, inside the value, after the
+// comma): stage 1 rejects them at the very end while stage 2 has consumed
+// everything it was given
+func truncatedObjects(r *Rng, n int) [][]byte {
+	var out [][]byte
+	for i := 0; i < n; i++ {
+		var b strings.Builder
+		b.WriteString(strings.Repeat(" ", 0))
+		b.WriteString("{")
+		for k := 0; b.Len() < 9000+r.Intn(40000); k++ {
+			if k > 0 {
+				b.WriteString(",")
+			}
+			if i%3 == 0 {
+				fmt.Fprintf(&b, `"k%05d":%d`, k, r.Intn(100000))
+			} else {
+				fmt.Fprintf(&b, `"k%05d":"vvvv"`, k)
+			}
+		}
+		s := b.String()
+		cut := len(s) - r.Intn(40)
+		pad := strings.Repeat(" ", r.Intn(64))
+		out = append(out, []byte("{"+pad+s[1:cut]))
+	}
+	return out
+}
